@@ -3,7 +3,7 @@ from _contracts import *
 
 O = "lib/melvm/src/opcode.rs"
 UNIT = Unit(
-    name="weight", uses=None,
+    name="weight", lemma_obs=['lemma_weight_range'], uses=None,
     prelude=["melvm_types.rs"],
     lemmas=["weight.rs"],
     items=[
